@@ -1061,6 +1061,118 @@ run_rawrace(void *arg)
 	vh_fini();
 }
 
+// ---- plain devices: PAIR, BUS, PUB/SUB, PUSH/PULL ------------------------------------------------------------------
+// "forwards each message it accepts with an unchanged body": one device between two raw sockets of every
+// family without a backtrace, BOTH argument orders of nng_device_aio (for the one-way families the
+// sending-only socket first or second), blocking call or aio, bodies of 0..70000 bytes, both directions
+// where the family has two.
+typedef struct pfam {
+	const char *name;
+	int (*dev1)(nng_socket *); // raw socket facing F
+	int (*dev2)(nng_socket *); // raw socket facing B
+	int (*f)(nng_socket *);
+	int (*b)(nng_socket *);
+	int twoway, sub;
+} pfam;
+static const pfam PF[] = {
+	{ "pair0", nng_pair0_open_raw, nng_pair0_open_raw, nng_pair0_open, nng_pair0_open, 1, 0 },
+	{ "pair1", nng_pair1_open_raw, nng_pair1_open_raw, nng_pair1_open, nng_pair1_open, 1, 0 },
+	{ "bus", nng_bus0_open_raw, nng_bus0_open_raw, nng_bus0_open, nng_bus0_open, 1, 0 },
+	{ "pushpull", nng_pull0_open_raw, nng_push0_open_raw, nng_push0_open, nng_pull0_open, 0, 0 },
+	{ "pubsub", nng_sub0_open_raw, nng_pub0_open_raw, nng_pub0_open, nng_sub0_open, 0, 1 },
+};
+#define NPF ((int) (sizeof(PF) / sizeof(PF[0])))
+static const size_t PSZ[] = { 5, 0, 1, 300, 70000, 4 };
+static nng_socket pd_s1, pd_s2;
+static int        pd_rv, pd_done;
+static void
+pd_cb(void *a)
+{
+	pd_rv = (int) nng_aio_result((nng_aio *) *(nng_aio **) a);
+	if (pd_done == 0)
+		pd_done = 1;
+}
+static void
+pd_xfer(const pfam *f, nng_socket from, nng_socket to, int dir, int k)
+{
+	size_t   n = PSZ[k];
+	nng_msg *m;
+	VH_OK(nng_msg_alloc(&m, n));
+	uint8_t *b = nng_msg_body(m);
+	for (size_t i = 0; i < n; i++)
+		b[i] = (uint8_t) (i * 7 + (size_t) k * 31 + (size_t) dir);
+	int rv = nng_sendmsg(from, m, NNG_FLAG_NONBLOCK);
+	if (rv != 0)
+		vs_fail("C13:plain-device", "%s device, direction %d: send %d -> %s", f->name, dir, k,
+		    nng_strerror(rv));
+	vs_settle();
+	if (pd_done > 0)
+		vs_fail("C13:device-stopped", "%s device ended by itself with %s while forwarding", f->name,
+		    nng_strerror(pd_rv));
+	nng_msg *r = NULL;
+	rv         = nng_recvmsg(to, &r, NNG_FLAG_NONBLOCK);
+	if (rv != 0)
+		vs_fail("C13:plain-device",
+		    "%s device, direction %d: message %d (%zu bytes) was accepted and not forwarded (%s)",
+		    f->name, dir, k, n, nng_strerror(rv));
+	if (nng_msg_len(r) != n)
+		vs_fail("C13:device-body", "%s device, direction %d: %zu bytes sent, %zu forwarded",
+		    f->name, dir, n, nng_msg_len(r));
+	b = nng_msg_body(r);
+	for (size_t i = 0; i < n; i++)
+		if (b[i] != (uint8_t) (i * 7 + (size_t) k * 31 + (size_t) dir))
+			vs_fail("C13:device-body", "%s device, direction %d: body of %zu bytes differs at %zu",
+			    f->name, dir, n, i);
+	nng_msg_free(r);
+	rv = nng_recvmsg(to, &r, NNG_FLAG_NONBLOCK);
+	if (rv == 0)
+		vs_fail("C13:device-body", "%s device: a second copy of message %d arrived", f->name, k);
+}
+static void
+run_plain(void *arg)
+{
+	const pfam *f = &PF[(int) (intptr_t) arg];
+	vh_init(0);
+	nng_socket d1, d2, F, B;
+	nng_aio   *aio = NULL;
+	int        order = vs_choose(VK_ENV, 2); // 1: nng_device_aio(aio, d2, d1)
+	VH_OK(f->dev1(&d1));
+	VH_OK(f->dev2(&d2));
+	VH_OK(f->f(&F));
+	VH_OK(f->b(&B));
+	if (f->sub)
+		VH_OK(nng_sub0_socket_subscribe(B, "", 0));
+	VH_OK(nng_listen(d1, "inproc://c13-plain-1", NULL, 0));
+	VH_OK(nng_listen(d2, "inproc://c13-plain-2", NULL, 0));
+	VH_OK(nng_dial(F, "inproc://c13-plain-1", NULL, 0));
+	VH_OK(nng_dial(B, "inproc://c13-plain-2", NULL, 0));
+	pd_done = 0;
+	pd_s1   = order ? d2 : d1;
+	pd_s2   = order ? d1 : d2;
+	VH_OK(nng_aio_alloc(&aio, pd_cb, &aio));
+	nng_device_aio(aio, pd_s1, pd_s2);
+	vs_settle();
+	if (pd_done > 0)
+		vs_fail("C13:device-stopped", "%s device (%s socket first) ended at once with %s", f->name,
+		    order ? "B-side" : "F-side", nng_strerror(pd_rv));
+	for (int k = 0; k < (int) (sizeof(PSZ) / sizeof(PSZ[0])); k++) {
+		pd_xfer(f, F, B, 0, k);
+		if (f->twoway)
+			pd_xfer(f, B, F, 1, k);
+	}
+	vs_nontrivial();
+	vs_outcome("%s order=%d", f->name, order);
+	nng_socket_close(F);
+	nng_socket_close(B);
+	pd_done = -1; // (stopping it now is ours)
+	nng_aio_cancel(aio);
+	nng_aio_wait(aio);
+	nng_aio_free(aio);
+	(void) nng_socket_close(d1); // (the device has closed them already)
+	(void) nng_socket_close(d2);
+	vh_fini();
+}
+
 static void
 explore_b(const char *name, void (*fn)(void *), void *arg, int preempt, int sw,
     int total, double deadline)
@@ -1103,6 +1215,14 @@ main(int argc, char **argv)
 	explore("loop-reqrep", run_loop, (void *) 0);
 	explore("loop-survey", run_loop, (void *) 1);
 	explore("backtrace", run_bt, NULL);
+	for (int i = 0; i < NPF; i++) {
+		char nm[40];
+		snprintf(nm, sizeof(nm), "plain-device-%s", PF[i].name);
+		explore(strdup(nm), run_plain, (void *) (intptr_t) i);
+	}
+	vx_note("plain-devices", "pair0 pair1 bus pushpull pubsub: one device between two raw sockets, both "
+	                         "argument orders, bodies {5,0,1,300,70000,4} bytes, both "
+	                         "directions where there are two; each body arrives once, unchanged");
 	// thread interleavings of two concurrent requests through one/two devices
 	{
 		// budgets: preemptions, switches at blocking points, total deviations
